@@ -14,13 +14,13 @@ P, S, H, G, V = "FFSM2_ENABLE_PLANS", "FFSM2_ENABLE_SERIALIZATION", "FFSM2_ENABL
 _cfg_counter = [0]
 
 
-def cfg(name, N=3, head=1, manual=0, L=4, cap=0, pay=0, ctx=1, inj=0, bare=0, feats=(), scale=1.0, partial=0, headout=3):
+def cfg(name, N=3, head=1, manual=0, L=4, cap=0, pay=0, ctx=1, inj=0, bare=0, feats=(), scale=1.0, partial=0, headout=3, virt=0, constcb=0):
     # the order in which the configuration aliases are applied rotates over the configurations
     order = _cfg_counter[0] % 4
     _cfg_counter[0] += 1
     d = ["-DCFG_ORDER=%d" % order, "-DCFG_N=%d" % N, "-DCFG_HEAD=%d" % head, "-DCFG_MANUAL=%d" % manual, "-DCFG_L=%d" % L, "-DCFG_CAP=%d" % cap,
          "-DCFG_PAYLOAD=%d" % pay, "-DCFG_CTX=%d" % ctx, "-DCFG_INJ=%d" % inj, "-DCFG_BARE=%d" % bare,
-         "-DCFG_PARTIAL=%d" % partial, "-DCFG_HEADOUT=%d" % headout] + ["-D" + f for f in feats]
+         "-DCFG_PARTIAL=%d" % partial, "-DCFG_HEADOUT=%d" % headout, "-DCFG_VIRT=%d" % virt, "-DCFG_CONSTCB=%d" % constcb] + ["-D" + f for f in feats]
     return {"name": name, "defs": d, "feats": set(feats), "N": N, "head": head, "manual": manual, "L": L, "cap": cap, "pay": pay,
             "ctx": ctx, "inj": inj, "bare": bare, "scale": scale, "partial": partial, "headout": headout}
 
@@ -54,6 +54,11 @@ CONFIGS = [
     cfg("onlyPF", N=3, head=1, manual=0, L=3, pay=2, ctx=1, headout=2, feats=(P, G)),
     cfg("onlyPS", N=2, head=1, manual=1, L=2, pay=0, ctx=1, headout=1, feats=(P, S, H, G)),
     cfg("noOutcomes", N=3, head=1, manual=0, L=2, pay=4, ctx=3, inj=1, headout=0, feats=(P, V)),
+    # injections whose callbacks are virtual (one and two per state); state classes whose callbacks are const-qualified
+    cfg("virt1", N=3, head=1, manual=0, L=3, pay=1, ctx=1, inj=1, virt=1, feats=(P, G)),
+    cfg("virt2m", N=4, head=0, manual=1, L=2, pay=0, ctx=2, inj=2, virt=1, feats=(P, S, H)),
+    cfg("constcb", N=3, head=1, manual=0, L=3, pay=3, ctx=1, inj=0, constcb=1, feats=(P, S, H, G)),
+    cfg("constcb1m", N=2, head=1, manual=1, L=2, pay=0, ctx=3, inj=1, constcb=1, feats=(P, G)),
     # state counts beyond one storage unit of the per-state bit sets (9, 17, 32 states)
     cfg("n9plans", N=9, head=1, manual=0, L=3, cap=0, pay=3, ctx=1, feats=(P, S, H, G), scale=0.5),
     cfg("n17peer", N=17, head=0, manual=1, L=2, cap=20, pay=0, ctx=2, inj=1, feats=(P, S, H), scale=0.4),
